@@ -62,22 +62,38 @@ func (o opT) applies(k kindT) bool {
 	return false
 }
 
+// ifaceCtxs: destinations of interface type (repairs 3e0b633, 64aa77b of F02-3, F02-7, F02-8): an assigned variable, a
+// variable that held a value of another type before, a var declaration, a struct field, a slice element, a map entry,
+// a global, an interface parameter, an interface result (the only one / the second of two).
+var ifaceCtxs = []string{"iface", "ifacereuse", "ifacevar", "ifacefield", "ifaceelem", "ifacemap", "ifaceglobal", "ifacearg", "ifaceret", "ifaceret2"}
+
+// retCtxs: the operands are ARGUMENTS of an interpreted function (repair db2d0c1 of F02-5: floating-point -0 arguments,
+// alone or inside a struct / array / complex value / variadic slice, through a method value or a function literal).
+var retCtxs = []string{"ret", "retstruct", "retarray", "retvariadic", "retmethod", "retclosure"}
+
 func (o opT) contexts() []string {
+	var out []string
 	switch o.Group {
 	case "arith", "shift":
-		return []string{"assign", "define", "opassign", "ret", "cond", "iface", "arg",
+		out = []string{"assign", "define", "opassign", "cond", "arg",
 			"assign-global", "assign-elem", "assign-field", "opassign-map", "opassign-elem", "opassign-field", "opassign-ptr"}
 	case "cmp":
-		return []string{"cond", "assign", "define", "ret", "iface", "arg", "assign-global", "assign-elem", "assign-field"}
+		out = []string{"cond", "assign", "define", "arg", "assign-global", "assign-elem", "assign-field"}
 	case "unary", "conv":
-		return []string{"assign", "define", "ret", "iface", "arg", "assign-global", "assign-elem", "assign-field"}
+		out = []string{"assign", "define", "arg", "assign-global", "assign-elem", "assign-field"}
 	case "incdec":
 		return []string{"stmt", "stmt-map", "stmt-elem", "stmt-field", "stmt-ptr"}
 	case "logic":
-		return []string{"cond", "assign", "ret", "iface"}
+		out = []string{"cond", "assign"}
+	default:
+		return nil
 	}
-	return nil
+	out = append(out, retCtxs...)
+	return append(out, ifaceCtxs...)
 }
+
+// isRetCtx: the operator expression is the result of a callee whose parameters are the operands.
+func isRetCtx(ctx string) bool { return strings.HasPrefix(ctx, "ret") }
 
 // site is one operator expression in a generated program, evaluated on every pair of XS × YS.
 type site struct {
@@ -91,7 +107,8 @@ type site struct {
 	Spell                 string   `json:"spell,omitempty"` // spelling of an integer constant: "" decimal | hex | float (123.0) | exp (1.23e2) | rune
 	CL                    string   `json:"cl,omitempty"`    // constant operand source text
 	CR                    string   `json:"cr,omitempty"`
-	XS                    []string `json:"xs,omitempty"` // variable operand values (Go expressions; decimal for integers)
+	Src                   string   `json:"src,omitempty"` // where the variable operands are read from: "" local variable | field | elem | call | ptr | mvalue | global
+	XS                    []string `json:"xs,omitempty"`  // variable operand values (Go expressions; decimal for integers)
 	YS                    []string `json:"ys,omitempty"`
 	Line                  int      `json:"-"` // line of the operator expression in the program
 	First, Last, MainLine int      `json:"-"` // lines owned by the site
@@ -262,16 +279,18 @@ func (p *progBuilder) emit(s *site) {
 	k, k2 := s.kind(), s.kind2()
 	rk := s.resultKind()
 	id := s.ID
+	ctx := s.Ctx
 	unary := o.Group == "unary" || o.Group == "incdec" || o.Group == "conv"
 	// constants
 	constL := s.Form == "cl" || s.Form == "cc" || s.Form == "c"
 	constR := s.Form == "cr" || s.Form == "cc"
-	L, R := "a", "b"
+	varL, varR := !constL, !unary && !constR
+	L, R := "a", "b" // the operands as written at the site
 	s.First = len(p.lines) + 1
 	defer func() { s.Last = len(p.lines) }()
-	// the site function takes INDICES into the value tables (a float −0 passed as a parameter loses its sign in the
-	// interpreter, class float-negzero-param); only the `ret` context passes the operands themselves
-	var params, args, loops, fetch, vparams, vargs []string
+	// the site function takes INDICES into the value tables and fetches the operands into locals; the `ret…` contexts
+	// pass the operands themselves to a callee
+	var params, args, loops, fetch []string
 	pa, pb := `"-"`, `"-"`
 	if constL {
 		txt := spelled(s.CL, s.Spell, k)
@@ -291,7 +310,6 @@ func (p *progBuilder) emit(s *site) {
 		params = append(params, "i int")
 		args = append(args, "i")
 		fetch = append(fetch, "\ta := "+ta+"[i]")
-		vparams, vargs = append(vparams, "a "+k.Name), append(vargs, "a")
 		loops = append(loops, fmt.Sprintf("for i := range %s {", ta))
 		pa = operandKey(k, "a")
 	}
@@ -314,35 +332,155 @@ func (p *progBuilder) emit(s *site) {
 			params = append(params, "j int")
 			args = append(args, "j")
 			fetch = append(fetch, "\tb := "+tb+"[j]")
-			vparams, vargs = append(vparams, "b "+k2.Name), append(vargs, "b")
 			loops = append(loops, fmt.Sprintf("for j := range %s {", tb))
 			pb = operandKey(k2, "b")
+		}
+	}
+	// where the operator reads its variable operands from
+	var setup []string
+	switch s.Src {
+	case "field":
+		fs := "p bool"
+		if varL {
+			fs += "; x " + k.Name
+		}
+		if varR {
+			fs += "; y " + k2.Name
+		}
+		setup = append(setup, "\tvar os struct{ "+fs+" }")
+		if varL {
+			setup, L = append(setup, "\tos.x = a"), "os.x"
+		}
+		if varR {
+			setup, R = append(setup, "\tos.y = b"), "os.y"
+		}
+	case "elem":
+		if varL {
+			setup, L = append(setup, "\tox := []"+k.Name+"{a}"), "ox[0]"
+		}
+		if varR {
+			setup, R = append(setup, "\toy := []"+k2.Name+"{b, b}"), "oy[1]"
+		}
+	case "call":
+		if varL {
+			setup, L = append(setup, "\tfx := func() "+k.Name+" { return a }"), "fx()"
+		}
+		if varR {
+			setup, R = append(setup, "\tfy := func() "+k2.Name+" { return b }"), "fy()"
+		}
+	case "ptr":
+		if varL {
+			setup, L = append(setup, "\tpx := &a"), "*px"
+		}
+		if varR {
+			setup, R = append(setup, "\tpy := &b"), "*py"
+		}
+	case "mvalue": // method values
+		if varL {
+			p.add(fmt.Sprintf("type Ox%d struct{ v %s }", id, k.Name))
+			p.add(fmt.Sprintf("func (o Ox%d) get() %s { return o.v }", id, k.Name))
+			setup, L = append(setup, fmt.Sprintf("\tgx := Ox%d{a}.get", id)), "gx()"
+		}
+		if varR {
+			p.add(fmt.Sprintf("type Oy%d struct{ v %s }", id, k2.Name))
+			p.add(fmt.Sprintf("func (o *Oy%d) get() %s { return o.v }", id, k2.Name))
+			setup, R = append(setup, fmt.Sprintf("\tgy := (&Oy%d{b}).get", id)), "gy()"
+		}
+	case "global":
+		if varL {
+			p.add(fmt.Sprintf("var ga%d %s", id, k.Name))
+			setup, L = append(setup, fmt.Sprintf("\tga%d = a", id)), fmt.Sprintf("ga%d", id)
+		}
+		if varR {
+			p.add(fmt.Sprintf("var gb%d %s", id, k2.Name))
+			setup, R = append(setup, fmt.Sprintf("\tgb%d = b", id)), fmt.Sprintf("gb%d", id)
+		}
+	}
+	// callee contexts: the operands are parameters of a function whose result is the operator expression
+	callee := isRetCtx(ctx) || ctx == "ifaceret" || ctx == "ifaceret2"
+	inL, inR := L, R // the operands as written in the operator expression
+	cparams, cargs := "", ""
+	if callee {
+		var ps, as []string
+		elemK := k
+		if !varL {
+			elemK = k2
+		}
+		switch ctx {
+		case "retstruct":
+			var fs []string
+			if varL {
+				fs, as, inL = append(fs, "a "+k.Name), append(as, "a: "+L), "p.a"
+			}
+			if varR {
+				fs, as, inR = append(fs, "b "+k2.Name), append(as, "b: "+R), "p.b"
+			}
+			p.add(fmt.Sprintf("type P%d struct{ %s }", id, strings.Join(fs, "; ")))
+			cparams, cargs = fmt.Sprintf("p P%d", id), fmt.Sprintf("P%d{%s}", id, strings.Join(as, ", "))
+		case "retarray", "retvariadic":
+			name := "p"
+			if ctx == "retvariadic" {
+				name = "v"
+			}
+			if varL {
+				as, inL = append(as, L), fmt.Sprintf("%s[%d]", name, len(as))
+			}
+			if varR {
+				as, inR = append(as, R), fmt.Sprintf("%s[%d]", name, len(as))
+			}
+			if ctx == "retarray" {
+				cparams = fmt.Sprintf("p [%d]%s", len(as), elemK.Name)
+				cargs = fmt.Sprintf("[%d]%s{%s}", len(as), elemK.Name, strings.Join(as, ", "))
+			} else {
+				cparams, cargs = "v ..."+elemK.Name, strings.Join(as, ", ")
+			}
+		default:
+			if varL {
+				ps, as, inL = append(ps, "a "+k.Name), append(as, L), "a"
+			}
+			if varR {
+				ps, as, inR = append(ps, "b "+k2.Name), append(as, R), "b"
+			}
+			cparams, cargs = strings.Join(ps, ", "), strings.Join(as, ", ")
 		}
 	}
 	var expr string
 	switch o.Group {
 	case "unary":
-		expr = o.Tok + L
-		if strings.HasPrefix(L, "(") || !constL {
-			expr = o.Tok + L
-		}
+		expr = o.Tok + inL
 	case "conv":
-		expr = k2.Name + "(" + L + ")"
+		expr = k2.Name + "(" + inL + ")"
 	default:
-		expr = L + " " + o.Tok + " " + R
+		expr = inL + " " + o.Tok + " " + inR
 	}
 	plist := strings.Join(params, ", ")
 	alist := strings.Join(args, ", ")
-	vplist := strings.Join(vparams, ", ")
-	valist := strings.Join(vargs, ", ")
 	out := func(res string) string { return fmt.Sprintf("fmt.Println(%d, %s, %s, %s)", id, pa, pb, res) }
+	dyn := func(e string) string { return `fmt.Sprintf("%T:%v", ` + e + `, ` + e + `)` }
 
-	if s.Ctx == "assign-global" {
-		p.add(fmt.Sprintf("var g%d %s", id, rk.Name))
+	resT, ret := rk.Name, "\treturn "+expr
+	switch ctx {
+	case "ifaceret":
+		resT = "interface{}"
+	case "ifaceret2":
+		resT, ret = "(int, interface{})", "\treturn 7, "+expr
 	}
-	if s.Ctx == "ret" {
-		p.add(fmt.Sprintf("func f%d(%s) %s {", id, vplist, rk.Name))
-		s.Line = p.add("\treturn " + expr)
+	switch {
+	case ctx == "assign-global":
+		p.add(fmt.Sprintf("var g%d %s", id, rk.Name))
+	case ctx == "ifaceglobal":
+		p.add(fmt.Sprintf("var g%d interface{}", id))
+	case ctx == "ifacearg":
+		p.add(fmt.Sprintf("func h%d(e interface{}) string { return %s }", id, dyn("e")))
+	case ctx == "retmethod":
+		p.add(fmt.Sprintf("type T%d struct{ z int }", id))
+		p.add(fmt.Sprintf("func (t T%d) m(%s) %s {", id, cparams, resT))
+		s.Line = p.add(ret)
+		p.add("}")
+	case ctx == "retclosure":
+	case callee:
+		p.add(fmt.Sprintf("func f%d(%s) %s {", id, cparams, resT))
+		s.Line = p.add(ret)
 		p.add("}")
 	}
 	p.add(fmt.Sprintf("func s%d(%s) {", id, plist))
@@ -350,7 +488,10 @@ func (p *progBuilder) emit(s *site) {
 		p.add(l)
 	}
 	p.add(fmt.Sprintf("\tdefer rec(%d, %s, %s)", id, pa, pb))
-	switch s.Ctx {
+	for _, l := range setup {
+		p.add(l)
+	}
+	switch ctx {
 	case "assign":
 		p.add("\tvar r " + rk.Name)
 		s.Line = p.add("\tr = " + expr)
@@ -411,8 +552,18 @@ func (p *progBuilder) emit(s *site) {
 		p.add("\tr := " + L)
 		s.Line = p.add("\tr" + o.Tok)
 		p.add("\t" + out(resultPrint(rk, "r")))
-	case "ret":
-		p.add(fmt.Sprintf("\tr := f%d(%s)", id, valist))
+	case "ret", "retstruct", "retarray", "retvariadic":
+		p.add(fmt.Sprintf("\tr := f%d(%s)", id, cargs))
+		p.add("\t" + out(resultPrint(rk, "r")))
+	case "retmethod": // through a method value
+		p.add(fmt.Sprintf("\tg := T%d{}.m", id))
+		p.add(fmt.Sprintf("\tr := g(%s)", cargs))
+		p.add("\t" + out(resultPrint(rk, "r")))
+	case "retclosure": // through a function literal
+		p.add(fmt.Sprintf("\tf := func(%s) %s {", cparams, resT))
+		s.Line = p.add("\t" + ret)
+		p.add("\t}")
+		p.add(fmt.Sprintf("\tr := f(%s)", cargs))
 		p.add("\t" + out(resultPrint(rk, "r")))
 	case "cond":
 		c := expr
@@ -427,14 +578,53 @@ func (p *progBuilder) emit(s *site) {
 	case "iface":
 		p.add("\tvar e interface{}")
 		s.Line = p.add("\te = " + expr)
-		p.add("\t" + out(`fmt.Sprintf("%T:%v", e, e)`))
-	case "ifacereuse": // an interface variable that first receives an arithmetic result (class cmp-iface-dest-reused; replay only)
+		p.add("\t" + out(dyn("e")))
+	case "ifacereuse": // an interface variable that held a value of another dynamic type before
+		first := L
+		switch {
+		case varL && k.Class == "bool":
+			first = "!" + L
+		case varL:
+			first = L + " + " + L
+		case varR && k2.Class == "bool":
+			first = "!" + R
+		case varR:
+			first = R + " + " + R
+		}
 		p.add("\tvar e interface{}")
-		p.add("\te = " + L + " + " + R)
+		p.add("\te = " + first)
 		s.Line = p.add("\te = " + expr)
-		p.add("\t" + out(`fmt.Sprintf("%T:%v", e, e)`))
+		p.add("\t" + out(dyn("e")))
+	case "ifacevar":
+		s.Line = p.add("\tvar e interface{} = " + expr)
+		p.add("\t" + out(dyn("e")))
+	case "ifacefield":
+		p.add("\tvar st struct{ p bool; e interface{} }")
+		s.Line = p.add("\tst.e = " + expr)
+		p.add("\t" + out(dyn("st.e")))
+	case "ifaceelem":
+		p.add("\tsl := make([]interface{}, 2)")
+		s.Line = p.add("\tsl[1] = " + expr)
+		p.add("\t" + out(dyn("sl[1]")))
+	case "ifacemap":
+		p.add("\tm := map[string]interface{}{}")
+		s.Line = p.add("\tm[\"k\"] = " + expr)
+		p.add("\t" + out(dyn("m[\"k\"]")))
+	case "ifaceglobal":
+		s.Line = p.add(fmt.Sprintf("\tg%d = %s", id, expr))
+		p.add("\t" + out(dyn(fmt.Sprintf("g%d", id))))
+	case "ifacearg":
+		s.Line = p.add("\t" + out(fmt.Sprintf("h%d(%s)", id, expr)))
+	case "ifaceret":
+		p.add(fmt.Sprintf("\te := f%d(%s)", id, cargs))
+		p.add("\t" + out(dyn("e")))
+	case "ifaceret2":
+		p.add(fmt.Sprintf("\t_, e := f%d(%s)", id, cargs))
+		p.add("\t" + out(dyn("e")))
 	case "arg":
 		s.Line = p.add("\t" + out(resultPrint(rk, expr)))
+	default:
+		panic("emit: unknown context " + ctx)
 	}
 	p.add("}")
 	// loop in main
@@ -541,7 +731,14 @@ func constsOf(k kindT, level int) []string {
 	return nil
 }
 
-var countKinds = []string{"uint8", "uint", "uint64", "uint16", "uint32", "uintptr", "int", "int8", "int64", "int16", "int32"}
+// countKinds: kinds of the shift count; the first four are always generated (two signed ones among them: negative
+// counts, repair 002dfac of F02), the others are sampled in the quick tier
+var countKinds = []string{"uint8", "int", "uint", "int8", "uint64", "uint16", "uint32", "uintptr", "int64", "int16", "int32"}
+
+const coreCountKinds = 4
+
+// operandSources: where the variable operands of a site are read from (site.Src), besides a local variable
+var operandSources = []string{"field", "elem", "call", "ptr", "mvalue", "global"}
 
 func allKinds() []kindT {
 	var out []kindT
@@ -575,7 +772,7 @@ func convTargets(k kindT) []kindT {
 type genOpts struct {
 	level     int     // 0 quick, 1 thorough
 	constFrac float64 // fraction of the constant-form sites that are emitted (sampled by seed)
-	negCounts bool    // include negative shift counts of signed kinds (class shift-negative-count)
+	negCounts bool    // include negative shift counts of signed kinds
 }
 
 // generate returns the sites of a tier. The variable×variable sites cover the whole product
@@ -584,6 +781,18 @@ type genOpts struct {
 func generate(rng *rand.Rand, g genOpts) []*site {
 	var out []*site
 	add := func(s site) {
+		// contexts a site cannot be written in
+		varL := s.Form == "vv" || s.Form == "cr" || s.Form == "v"
+		varR := s.Form == "vv" || s.Form == "cl"
+		switch s.Ctx {
+		case "retstruct", "retarray", "retvariadic":
+			if !varL && !varR {
+				return
+			}
+			if s.Ctx != "retstruct" && varL && varR && s.K != s.K2 {
+				return // one element type
+			}
+		}
 		s.ID = len(out) + 1
 		if (s.CL != "" || s.CR != "") && (s.kind().isInt() || s.kind2().isInt()) && s.Op != "conv" {
 			s.Spell = []string{"", "", "hex", "float", "exp", "rune"}[rng.Intn(6)]
@@ -592,9 +801,7 @@ func generate(rng *rand.Rand, g genOpts) []*site {
 				s.Spell = "hex"
 			}
 		}
-		// contexts in which the unchanged interpreter generates no closure at all (class iface-dest-no-closure): every
-		// evaluation fails the same way, two values per operand are enough to keep the class observed
-		if s.Ctx == "iface" && s.resultKind().Under != "" {
+		if isIfaceCtx(s.Ctx) && s.resultKind().Under != "" {
 			// class defined-type-dynamic-type: the dynamic type is always reported as the underlying type
 			if len(s.XS) > 3 {
 				s.XS = s.XS[len(s.XS)-3:]
@@ -603,32 +810,51 @@ func generate(rng *rand.Rand, g genOpts) []*site {
 				s.YS = s.YS[len(s.YS)-3:]
 			}
 		}
-		if s.Ctx == "iface" {
-			switch s.Op {
-			case "rem", "shl", "shr", "neg", "bitnot":
-				if len(s.XS) > 2 {
-					s.XS = s.XS[len(s.XS)-2:]
-				}
-				if len(s.YS) > 2 {
-					s.YS = s.YS[len(s.YS)-2:]
-				}
-			}
-		}
 		out = append(out, &s)
 	}
+	// withSources adds the site again with its variable operands read from somewhere else than a local variable:
+	// every source when all is set, one drawn by seed otherwise.
+	withSources := func(s site, all bool) {
+		if all {
+			for _, src := range operandSources {
+				c := s
+				c.Src = src
+				add(c)
+			}
+			return
+		}
+		s.Src = operandSources[rng.Intn(len(operandSources))]
+		add(s)
+	}
 	curCtx := ""
+	// the contexts added for the repaired findings run on the core boundary set in both tiers (the full set of the
+	// thorough tier is kept for the contexts assign … iface, ret)
+	newCtx := func(ctx string) bool { return isIfaceCtx(ctx) && ctx != "iface" || isRetCtx(ctx) && ctx != "ret" }
 	keep := func() bool {
 		f := g.constFrac
-		if strings.Contains(curCtx, "-") {
+		if strings.Contains(curCtx, "-") || newCtx(curCtx) {
 			f *= 0.3 // constant forms in the additional destination contexts
 		}
 		return f >= 1 || rng.Float64() < f
 	}
 	// the additional destinations (global, slice element, struct field, map entry, pointer) are sampled in the quick tier
 	extraCtx := func(ctx string) bool { return strings.Contains(ctx, "-") }
-	skipCtx := func(ctx string) bool { return extraCtx(ctx) && g.level == 0 && rng.Intn(3) != 0 }
+	curFloat := false // float / complex kind: every argument-passing context is kept (-0 arguments, repair db2d0c1 of F02-5)
+	skipCtx := func(ctx string) bool {
+		if g.level > 0 {
+			return false
+		}
+		switch {
+		case extraCtx(ctx):
+			return rng.Intn(3) != 0
+		case isRetCtx(ctx) && ctx != "ret" && !curFloat:
+			return rng.Intn(2) != 0
+		}
+		return false
+	}
 	ckinds := []string{"lit", "typed", "untyped"}
 	for _, k := range allKinds() {
+		curFloat = k.Class == "float" || k.Class == "complex"
 		vals := valuesOf(k, g.level)
 		consts := constsOf(k, g.level)
 		// constant-form sites (one per constant value of the tier's FULL boundary set) run over the core boundary set
@@ -645,7 +871,15 @@ func generate(rng *rand.Rand, g genOpts) []*site {
 						continue
 					}
 					curCtx = ctx
-					add(site{Op: o.Name, K: k.Name, K2: k.Name, Form: "vv", Ctx: ctx, XS: vals, YS: vals})
+					vv := site{Op: o.Name, K: k.Name, K2: k.Name, Form: "vv", Ctx: ctx, XS: vals, YS: vals}
+					if newCtx(ctx) {
+						vv.XS, vv.YS = cvals, cvals
+					}
+					add(vv)
+					if ctx == "assign" || ctx == "iface" || ctx == "ret" || g.level > 0 && !extraCtx(ctx) && rng.Intn(4) == 0 {
+						vv.XS, vv.YS = cvals, cvals
+						withSources(vv, g.level > 0 && ctx == "assign")
+					}
 					for _, c := range consts {
 						for _, ck := range ckinds {
 							if keep() {
@@ -671,26 +905,43 @@ func generate(rng *rand.Rand, g genOpts) []*site {
 			case "shift":
 				for ci, ckn := range countKinds {
 					ck := kindByName[ckn]
-					if g.level == 0 && ci >= 3 && rng.Intn(4) != 0 {
+					if g.level == 0 && ci >= coreCountKinds && rng.Intn(4) != 0 {
 						continue
 					}
 					counts := strs(shiftCounts(ck, g.level, g.negCounts))
 					for _, ctx := range o.contexts() {
-						if extraCtx(ctx) && ci >= 3 {
+						if extraCtx(ctx) && ci >= coreCountKinds {
 							continue
 						}
 						if skipCtx(ctx) {
 							continue
 						}
 						curCtx = ctx
-						add(site{Op: o.Name, K: k.Name, K2: ck.Name, Form: "vv", Ctx: ctx, XS: vals, YS: counts})
+						vv := site{Op: o.Name, K: k.Name, K2: ck.Name, Form: "vv", Ctx: ctx, XS: vals, YS: counts}
+						if newCtx(ctx) {
+							vv.XS, vv.YS = cvals, strs(shiftCounts(ck, 0, g.negCounts))
+						}
+						add(vv)
+						// the count (and the shifted operand) read from a struct field, a slice element, a call, a pointer, a
+						// method value, a global: every source for a signed count kind in the assign / op-assign contexts,
+						// one drawn by seed in the other contexts
+						if !extraCtx(ctx) && (ci < coreCountKinds || g.level > 0) {
+							vv.XS, vv.YS = cvals, strs(shiftCounts(ck, 0, g.negCounts))
+							withSources(vv, ck.Signed && (ctx == "assign" || ctx == "opassign") && (ci < coreCountKinds || g.level > 0 && rng.Intn(3) == 0))
+						}
 						for _, c := range consts {
 							for _, cf := range ckinds {
 								// an untyped constant left operand takes its type from the context: keep contexts that give it kind k
-								typedCtx := strings.HasPrefix(ctx, "assign") || ctx == "ret" || strings.HasPrefix(ctx, "opassign")
+								typedCtx := strings.HasPrefix(ctx, "assign") || isRetCtx(ctx) || strings.HasPrefix(ctx, "opassign")
 								if (cf == "typed" || typedCtx || k.Name == "int") && keep() && rng.Intn(3) == 0 {
 									add(site{Op: o.Name, K: k.Name, K2: ck.Name, Form: "cl", CKind: cf, Ctx: ctx, CL: c, YS: counts})
 								}
+							}
+						}
+						// class shift-paren-const-left-iface-decl (F02-14) and its unparenthesised neighbour, always present
+						if k.Name == "int" && ci == 0 && (ctx == "ifacevar" || ctx == "ifaceret" || ctx == "ifaceret2" || ctx == "iface") {
+							for _, c := range []string{"-4", "4"} {
+								add(site{Op: o.Name, K: k.Name, K2: ck.Name, Form: "cl", CKind: "lit", Ctx: ctx, CL: c, YS: counts})
 							}
 						}
 						for _, c := range strs(shiftCounts(ck, g.level, false)) {
@@ -708,7 +959,14 @@ func generate(rng *rand.Rand, g genOpts) []*site {
 						continue
 					}
 					curCtx = ctx
-					add(site{Op: o.Name, K: k.Name, K2: k.Name, Form: "v", Ctx: ctx, XS: vals})
+					v := site{Op: o.Name, K: k.Name, K2: k.Name, Form: "v", Ctx: ctx, XS: vals}
+					if newCtx(ctx) {
+						v.XS = cvals
+					}
+					add(v)
+					if ctx == "assign" || ctx == "iface" || ctx == "ret" {
+						withSources(v, g.level > 0 && ctx == "assign")
+					}
 					for _, c := range consts {
 						if keep() {
 							add(site{Op: o.Name, K: k.Name, K2: k.Name, Form: "c", CKind: "typed", Ctx: ctx, CL: c})
@@ -732,7 +990,11 @@ func generate(rng *rand.Rand, g genOpts) []*site {
 						if g.level == 0 && ctx != "assign" && rng.Intn(3) != 0 {
 							continue
 						}
-						add(site{Op: o.Name, K: k.Name, K2: t.Name, Form: "v", Ctx: ctx, XS: vals})
+						cv := site{Op: o.Name, K: k.Name, K2: t.Name, Form: "v", Ctx: ctx, XS: vals}
+						if newCtx(ctx) {
+							cv.XS = cvals
+						}
+						add(cv)
 						for _, c := range consts {
 							if keep() && rng.Intn(2) == 0 {
 								add(site{Op: o.Name, K: k.Name, K2: t.Name, Form: "c", CKind: []string{"lit", "typed"}[rng.Intn(2)], Ctx: ctx, CL: c})
